@@ -66,37 +66,50 @@ pub fn fnv(bytes: &[u8]) -> u64 {
     h
 }
 
+/// Children in flight: pid -> (deadline, killed by the watchdog).
+static CHILDREN: std::sync::Mutex<Option<std::collections::HashMap<u32, (std::time::Instant, bool)>>> = std::sync::Mutex::new(None);
+static CHILD_WATCHDOG: std::sync::Once = std::sync::Once::new();
+
 /// Run a command with a wall-clock limit. `None` = it had to be killed.
+/// The worker blocks in `wait_with_output`; one watchdog thread kills overdue children.
 pub fn output_with_timeout(cmd: &mut std::process::Command, secs: u64) -> std::io::Result<Option<std::process::Output>> {
-    use std::io::Read;
-    let mut child = cmd.stdout(std::process::Stdio::piped()).stderr(std::process::Stdio::piped()).spawn()?;
-    let mut so = child.stdout.take().unwrap();
-    let mut se = child.stderr.take().unwrap();
-    let t1 = std::thread::spawn(move || {
-        let mut v = vec![];
-        let _ = so.read_to_end(&mut v);
-        v
-    });
-    let t2 = std::thread::spawn(move || {
-        let mut v = vec![];
-        let _ = se.read_to_end(&mut v);
-        v
-    });
-    let t0 = std::time::Instant::now();
-    let status = loop {
-        match child.try_wait()? {
-            Some(s) => break Some(s),
-            None => {
-                if t0.elapsed().as_secs() >= secs {
-                    let _ = child.kill();
-                    let _ = child.wait();
-                    break None;
+    CHILD_WATCHDOG.call_once(|| {
+        std::thread::spawn(|| loop {
+            std::thread::sleep(std::time::Duration::from_millis(200));
+            let now = std::time::Instant::now();
+            let mut overdue = vec![];
+            if let Some(map) = CHILDREN.lock().unwrap().as_mut() {
+                for (pid, (deadline, killed)) in map.iter_mut() {
+                    if now >= *deadline && !*killed {
+                        *killed = true;
+                        overdue.push(*pid);
+                    }
                 }
-                std::thread::sleep(std::time::Duration::from_millis(5));
             }
-        }
-    };
-    let stdout = t1.join().unwrap_or_default();
-    let stderr = t2.join().unwrap_or_default();
-    Ok(status.map(|status| std::process::Output { status, stdout, stderr }))
+            for pid in overdue {
+                let _ = std::process::Command::new("kill").arg("-9").arg(pid.to_string()).status();
+            }
+        });
+    });
+    let child = cmd.stdin(std::process::Stdio::null()).stdout(std::process::Stdio::piped()).stderr(std::process::Stdio::piped()).spawn()?;
+    let pid = child.id();
+    CHILDREN.lock().unwrap().get_or_insert_with(Default::default).insert(pid, (std::time::Instant::now() + std::time::Duration::from_secs(secs), false));
+    let out = child.wait_with_output();
+    let killed = CHILDREN.lock().unwrap().as_mut().and_then(|m| m.remove(&pid)).map(|x| x.1).unwrap_or(false);
+    let out = out?;
+    Ok(if killed { None } else { Some(out) })
+}
+
+#[cfg(test)]
+mod tests {
+    #[test]
+    fn child_timeout_and_normal_exit() {
+        let t0 = std::time::Instant::now();
+        let r = super::output_with_timeout(std::process::Command::new("sleep").arg("30"), 1).unwrap();
+        assert!(r.is_none());
+        assert!(t0.elapsed().as_secs() < 5);
+        let r = super::output_with_timeout(std::process::Command::new("sh").arg("-c").arg("echo hi; exit 3"), 5).unwrap().unwrap();
+        assert_eq!(r.status.code(), Some(3));
+        assert_eq!(r.stdout, b"hi\n");
+    }
 }
